@@ -32,7 +32,7 @@ Why the existing tests cannot settle it: {p['why_tests_cant']}
 
 Files the property is anchored in: {', '.join(p['anchors']['files'])}
 
-Focus for your change: other people have already seeded the changes listed below for this property; yours must be a DIFFERENT idea (different mechanism, different clause of the statement, or a different part of the API surface that the statement covers). First list the exported functions/methods of the anchored files and prefer one that none of the earlier ideas below touches. This round, aim at a RACE BETWEEN TWO DIFFERENT METHODS of the same object that are each correct when called alone or one after the other (a getter or status query against a mutator, a setter against an operation in flight, a second kind of consumer against the first, registration against lookup, a result reader against the writer), or at a RARELY TAKEN BRANCH of an existing function (an else/early-return/fallback/retry path that ordinary use never reaches) which your edit makes subtly wrong. The observable consequence must contradict the property statement itself, not only trip a data-race detector. Make sure the change really contradicts the statement as written (quote the clause it breaks in your NOTES.md) and is not merely a behaviour change the statement does not talk about. Prefer bugs that need a rare combination: a particular interleaving AND a particular configuration, two edits that are each harmless alone, or state that only goes wrong on the second/third use of the same object. Also consider code the anchored files DEPEND on (helpers in other files of the library that the anchored code calls), constructor variants, getters/setters and zero/negative/huge parameter values that the earlier ideas did not touch; setters or configuration changed while the object is in use; one object, option value or caller-owned slice/map reused across several calls; error, timeout, cancellation and already-closed paths; nil callbacks.
+Focus for your change: other people have already seeded the changes listed below for this property; yours must be a DIFFERENT idea (different mechanism, different clause of the statement, or a different part of the API surface that the statement covers). First list the exported functions/methods of the anchored files and prefer one that none of the earlier ideas below touches. This round, aim at the RESULT/ERROR CONTRACT the statement spells out: which error value is returned in which situation (and exactly then), zero value versus real value, ok/more flags of channel receives, an error that is swallowed, overwritten, wrapped differently or returned together with a side effect that should not have happened (or without one that should), a boolean status (IsClosed/IsDone/IsStarted/IsPresent-like) that lags or leads the real state. The wrong result must only appear in a specific situation (state, timing, configuration), not always. Make sure the change really contradicts the statement as written (quote the clause it breaks in your NOTES.md) and is not merely a behaviour change the statement does not talk about. Prefer bugs that need a rare combination: a particular interleaving AND a particular configuration, two edits that are each harmless alone, or state that only goes wrong on the second/third use of the same object. Also consider code the anchored files DEPEND on (helpers in other files of the library that the anchored code calls), constructor variants, getters/setters and zero/negative/huge parameter values that the earlier ideas did not touch; setters or configuration changed while the object is in use; one object, option value or caller-owned slice/map reused across several calls; error, timeout, cancellation and already-closed paths; nil callbacks.
 {ex}
 """)
 print("prepared", len(claimed), "worktrees with suffix", suffix)
